@@ -29,6 +29,17 @@ fn main() {
             let code = encverif::checks::run(&ctx);
             std::process::exit(code);
         }
+        "digest" | "digest-detail" => {
+            // digest <tier> <out> | digest-detail <tier> <section> <key> <out>
+            let detail = args[1] == "digest-detail";
+            if args.len() < if detail { 6 } else { 4 } {
+                usage();
+            }
+            let tier = if args[2] == "thorough" { Tier::Thorough } else { Tier::Quick };
+            let ctx = Ctx { prop: "C17".into(), tier, seed, threads, scale };
+            let code = if detail { encverif::checks::c17::digest_main(&ctx, &args[5], Some((args[3].clone(), args[4].clone()))) } else { encverif::checks::c17::digest_main(&ctx, &args[3], None) };
+            std::process::exit(code);
+        }
         "replay" => {
             if args.len() < 3 {
                 usage();
